@@ -234,6 +234,18 @@ def rule_c(repo, res):
     ok = any(isinstance(n, ast.Call) and dotted(n.func) == "allowed_values_for" and const_str(n.args[1]) == "base_video_format" and dotted(n.args[0]) == "LEVEL_CONSTRAINTS" and dotted(n.args[2]) == "constrained_values" for n in ast.walk(rfn))
     res.check(ok, "C16.c", "base-format:from-allowed-values", "%s:%s" % (rm.rel, rfn.name), "candidate base formats must be the level's allowed values given the known values", by="allowed_values_for(LEVEL_CONSTRAINTS, 'base_video_format', constrained_values, ...)")
     pm, pfn = repo.func("encoder.pictures:decide_extended_transform_flag")
-    t = norm(pfn)
-    ok = "allowed_values_for(LEVEL_CONSTRAINTS, flag_name, constrained_values)" in t and "flag in permitted_flags" in t and "IncompatibleLevelAndExtendedTransformParametersError" in t
+    feat, flagp = pfn.args.args[0].arg, pfn.args.args[1].arg
+    # permitted = allowed_values_for(LEVEL_CONSTRAINTS, <flag name param>, <trivial constraints of the features>)
+    permitted = known = None
+    for a_ in ast.walk(pfn):
+        if isinstance(a_, ast.Assign) and isinstance(a_.value, ast.Call) and dotted(a_.value.func) == "codec_features_to_trivial_level_constraints" and a_.value.args and dotted(a_.value.args[0]) == feat:
+            known = dotted(a_.targets[0])
+    for a_ in ast.walk(pfn):
+        if isinstance(a_, ast.Assign) and isinstance(a_.value, ast.Call) and dotted(a_.value.func) == "allowed_values_for" and len(a_.value.args) >= 3 and dotted(a_.value.args[0]) == "LEVEL_CONSTRAINTS" and dotted(a_.value.args[1]) == flagp and dotted(a_.value.args[2]) == known:
+            permitted = dotted(a_.targets[0])
+    # the returned flag is drawn from a membership test in `permitted`; exhaustion raises the Incompatible... error
+    member = any(isinstance(c_, ast.Compare) and isinstance(c_.ops[0], ast.In) and dotted(c_.comparators[0]) == permitted for r_ in ast.walk(pfn) if isinstance(r_, ast.Return) for c_ in ast.walk(r_))
+    refuses = any(isinstance(r_, ast.Raise) and isinstance(r_.exc, ast.Call) and dotted(r_.exc.func) == "IncompatibleLevelAndExtendedTransformParametersError" for r_ in ast.walk(pfn))
+    rets = [r_ for r_ in ast.walk(pfn) if isinstance(r_, ast.Return)]
+    ok = permitted is not None and known is not None and member and refuses and len(rets) == 1
     res.check(ok, "C16.c", "extended-transform-flags:from-table", "%s:%s" % (pm.rel, pfn.name), "asym_transform*_flag values must be chosen among the level's permitted values or the encoder must refuse", by="chosen from allowed_values_for(...) or raises")
